@@ -153,7 +153,9 @@ func Emit(name string, v uint64) { fmt.Printf("VS-EMIT %s=%d\n", name, v) }
 // Schedules switches the engine to schedule exploration: goroutines become threads whose
 // interleaving at blocking operations and - up to the given number of preemptions - at
 // synchronisation operations (sync/atomic, sync.Map, mutex, channel) is enumerated.
-func Schedules(preemptions int) {}
+func Schedules(preemptions int) {
+	panic(Unavailable{"schedule exploration has no native form"})
+}
 
 // Join runs every goroutine until it has finished or is blocked for good.
 func Join() { time.Sleep(20 * time.Millisecond) }
